@@ -172,6 +172,7 @@ type Monitors struct {
 	Quiet bool // O-quiet
 	Page  bool // O-page
 	LRU   bool // O-lru
+	Durable bool // O-durable: the log is fsynced when a statement's log append ends
 }
 
 var curWorld *World
@@ -194,6 +195,7 @@ func installHooks() {
 		WalOpened:     func(f any, db string) { if w := curWorld; w != nil { w.hookWalOpened(f, db) } },
 		WalIO:         func(f any, k int, b []byte) { if w := curWorld; w != nil { w.hookWalIO(f, k, b) } },
 		WalTruncate:   func(f any, size int64) { if w := curWorld; w != nil { w.hookWalTruncate(f, size) } },
+		WalFileOp:     func(f any, op string, b []byte, size int64) { if w := curWorld; w != nil { w.hookWalFileOp(f, op, b, size) } },
 		Replay:        func(fs *storage.VerifStore, op uint8, lsn, pg uint64, cell uint32, redo bool) { if w := curWorld; w != nil { w.hookReplay(fs, op, lsn, pg, cell, redo) } },
 		LRU:           func(l *storage.LRUCache, k int, key any, n *storage.VerifNode) { if w := curWorld; w != nil { w.hookLRU(l, k, key, n) } },
 	})
@@ -742,6 +744,10 @@ func (w *World) hookWalOpened(f any, db string) {
 	w.wals[f] = &walHandle{db: strings.ToLower(db), path: path, shadow: w.shadowFor(path)}
 }
 
+// hookWalIO: the hook lines in wal.flush. They mark the crash points (before
+// each write / fsync) and the end of the statement's log append. The contents
+// of the log and what has been fsynced are NOT taken from them but from the
+// calls that really reach the file (hookWalFileOp).
 func (w *World) hookWalIO(f any, kind int, b []byte) {
 	atomic.AddInt64(&Progress, 1)
 	h := w.wals[f]
@@ -759,32 +765,50 @@ func (w *World) hookWalIO(f any, kind int, b []byte) {
 		}
 		w.captureWal(h, kind, b)
 		w.walEvIdx++
-		h.shadow.data = append(h.shadow.data, b...)
 		w.count("wal_write")
 		w.yieldPoint()
 	case storage.VerifWalSync:
 		w.captureWal(h, kind, nil)
 		w.walEvIdx++
-		h.shadow.synced = len(h.shadow.data)
 		w.count("wal_sync")
 		w.yieldPoint()
 	case storage.VerifWalFlushDone:
 		w.stmtLogged = true
+		if w.mon.Durable && w.cur == nil && w.inStmt && h.shadow.synced != len(h.shadow.data) {
+			w.raise(w.Prop, "O-durable", fmt.Sprintf("a %s statement finished its log append with %d of %d log bytes not covered by an fsync: a crash now loses acknowledged work", w.stmtKind, len(h.shadow.data)-h.shadow.synced, len(h.shadow.data)),
+				map[string]string{"how": "unsynced-log", "stmt": w.stmtKind})
+		}
 	}
 }
 
-func (w *World) hookWalTruncate(f any, size int64) {
+// hookWalFileOp: calls that really reach a log file handle.
+func (w *World) hookWalFileOp(f any, op string, b []byte, size int64) {
+	atomic.AddInt64(&Progress, 1)
 	h := w.wals[f]
 	if h == nil {
 		return
 	}
-	w.h(14, uint64(size))
-	if int(size) < len(h.shadow.data) {
-		h.shadow.data = h.shadow.data[:size]
-		w.count("wal_torn_tail_truncated")
-	}
-	if h.shadow.synced > len(h.shadow.data) {
+	switch op {
+	case "write":
+		h.shadow.data = append(h.shadow.data, b...)
+		w.count("wal_file_write")
+	case "synced":
 		h.shadow.synced = len(h.shadow.data)
+		w.count("wal_file_sync")
+	case "truncated":
+		if int(size) < len(h.shadow.data) {
+			h.shadow.data = h.shadow.data[:size]
+			w.count("wal_torn_tail_truncated")
+		}
+		if h.shadow.synced > len(h.shadow.data) {
+			h.shadow.synced = len(h.shadow.data)
+		}
+	}
+}
+
+func (w *World) hookWalTruncate(f any, size int64) {
+	if h := w.wals[f]; h != nil {
+		w.h(14, uint64(size))
 	}
 }
 
